@@ -301,6 +301,7 @@ func c16Codec(rep *Report) {
 type c16Iso struct {
 	SLabel, RLabel string
 	Skip, Enc      bool
+	SSkip          bool `json:",omitempty"` // the SENDER delegates its inbound check to an outer layer; what it sends must carry its label all the same
 }
 
 func (c c16Iso) String() string {
@@ -310,7 +311,11 @@ func (c c16Iso) String() string {
 		}
 		return fmt.Sprintf("%q", s)
 	}
-	return fmt.Sprintf("sender=%s receiver=%s skip=%v enc=%v", f(c.SLabel), f(c.RLabel), c.Skip, c.Enc)
+	ss := ""
+	if c.SSkip {
+		ss = " sender-skips-inbound-check"
+	}
+	return fmt.Sprintf("sender=%s receiver=%s skip=%v enc=%v%s", f(c.SLabel), f(c.RLabel), c.Skip, c.Enc, ss)
 }
 
 func TestC16(t *testing.T) {
@@ -337,66 +342,86 @@ func TestC16(t *testing.T) {
 		c16Codec(rep)
 	}
 	idx := 400
+	var isos []c16Iso
 	for _, sl := range labels {
 		for _, rl := range labels {
 			for _, skip := range []bool{false, true} {
 				for _, enc := range []bool{false, true} {
-					iso := c16Iso{sl, rl, skip, enc}
-					idx++
-					if replay && iso != rp {
-						continue
-					}
-					if !replay && !mine(idx) {
-						continue
-					}
-					keys := ""
-					if enc {
-						keys = "K1"
-					}
-					res := inBubble(t, func(b *bubble) {
-						installDetRand()
-						seeds := captureSeeds(b, rcfg{Keys: keys, Label: sl, EncVsn: 1})
-						rc := rcfg{Keys: keys, Label: rl, EncVsn: 1, SkipLabel: skip}
-						rcv := newReceiver(b, rc)
-						eff0, _ := splitEffect(rcv.effect(nil))
-						mayAct := sl == rl
-						if skip {
-							mayAct = sl == ""
+					isos = append(isos, c16Iso{SLabel: sl, RLabel: rl, Skip: skip, Enc: enc})
+				}
+			}
+		}
+	}
+	// a labelled sender that leaves its own inbound check to an outer layer still labels what it sends
+	for _, rl := range []string{"", labels[1], labels[len(labels)-1]} {
+		for _, skip := range []bool{false, true} {
+			for _, enc := range []bool{false, true} {
+				isos = append(isos, c16Iso{SLabel: labels[1], RLabel: rl, Skip: skip, Enc: enc, SSkip: true})
+			}
+		}
+	}
+	for _, iso := range isos {
+		sl, rl, skip, enc := iso.SLabel, iso.RLabel, iso.Skip, iso.Enc
+		{
+			{
+				{
+					{
+						idx++
+						if replay && iso != rp {
+							continue
 						}
-						for _, sd := range seeds {
-							rep.Evaluations++
-							journal("C16 %v seed=%s", iso, sd.Family)
-							var reply []byte
-							if sd.Stream {
-								reply, _ = rcv.injectStream(sd.Buf, true, 0)
-							} else {
-								rcv.injectPacket(sd.Buf)
+						if !replay && !mine(idx) {
+							continue
+						}
+						keys := ""
+						if enc {
+							keys = "K1"
+						}
+						res := inBubble(t, func(b *bubble) {
+							installDetRand()
+							seeds := captureSeeds(b, rcfg{Keys: keys, Label: sl, EncVsn: 1, SkipLabel: iso.SSkip})
+							rc := rcfg{Keys: keys, Label: rl, EncVsn: 1, SkipLabel: skip}
+							rcv := newReceiver(b, rc)
+							eff0, _ := splitEffect(rcv.effect(nil))
+							mayAct := sl == rl
+							if skip {
+								mayAct = sl == ""
 							}
-							st, rp := splitEffect(rcv.effect(reply))
-							acted := st != eff0 || rp != "none"
-							if !mayAct {
-								if acted {
-									rep.Violate("foreign-label-traffic-acted-on:"+sd.Family, fmt.Sprintf("%v: %s (stream=%v) had an effect: state changed=%v reply=%s", iso, sd.Family, sd.Stream, st != eff0, rp), iso)
-									rep.Outcome("VIOLATION")
+							for _, sd := range seeds {
+								rep.Evaluations++
+								journal("C16 %v seed=%s", iso, sd.Family)
+								var reply []byte
+								if sd.Stream {
+									reply, _ = rcv.injectStream(sd.Buf, true, 0)
 								} else {
-									rep.Outcome("foreign-dropped")
-									rep.Distinct++
+									rcv.injectPacket(sd.Buf)
 								}
-							} else if acted {
-								rep.Outcome("own-label-acted")
-								rep.Distinct++
-							} else {
-								rep.Outcome("own-label-no-observable-effect")
+								st, rp := splitEffect(rcv.effect(reply))
+								acted := st != eff0 || rp != "none"
+								if !mayAct {
+									if acted {
+										rep.Violate("foreign-label-traffic-acted-on:"+sd.Family, fmt.Sprintf("%v: %s (stream=%v) had an effect: state changed=%v reply=%s", iso, sd.Family, sd.Stream, st != eff0, rp), iso)
+										rep.Outcome("VIOLATION")
+									} else {
+										rep.Outcome("foreign-dropped")
+										rep.Distinct++
+									}
+								} else if acted {
+									rep.Outcome("own-label-acted")
+									rep.Distinct++
+								} else {
+									rep.Outcome("own-label-no-observable-effect")
+								}
+								if acted {
+									rcv.retire()
+									rcv = newReceiver(b, rc)
+								}
 							}
-							if acted {
-								rcv.retire()
-								rcv = newReceiver(b, rc)
-							}
+							rcv.retire()
+						})
+						if res.Panic != nil {
+							rep.Violate("panic", fmt.Sprintf("%v: %v", iso, res.Panic), iso)
 						}
-						rcv.retire()
-					})
-					if res.Panic != nil {
-						rep.Violate("panic", fmt.Sprintf("%v: %v", iso, res.Panic), iso)
 					}
 				}
 			}
@@ -405,7 +430,7 @@ func TestC16(t *testing.T) {
 	if !replay {
 		c16MixedAll(t, rep)
 	}
-	rep.Sample(map[string]any{"isolation_cell": c16Iso{"ab", "a", false, true}.String(), "codec": "label of 255 bytes starting with 0xf4, payload starting with 0xf4, stream split at 1 and 256"})
+	rep.Sample(map[string]any{"isolation_cell": c16Iso{SLabel: "ab", RLabel: "a", Enc: true}.String(), "codec": "label of 255 bytes starting with 0xf4, payload starting with 0xf4, stream split at 1 and 256"})
 }
 
 // ---------------------------------------------------------------- mixed-label world (Engine N)
